@@ -9,7 +9,9 @@
 (*          observed stdout equals json.dumps(result, indent, sort_keys) / str(result),    *)
 (*          resp. names the GlomError class                                                *)
 (*   events the audit events caused by the spec text: "compile" / "exec" / "effect"        *)
-(*   obs    [exit: "0" | "1" | "usage" | "crash" | "other", outempty: BOOLEAN]              *)
+(*   obs    [exit: "0" | "1" | "usage" | "crash" | "other", outempty: BOOLEAN,              *)
+(*           rc: process status "0" | "1" | "other" | "-" (in-process), err: stderr         *)
+(*           "empty" | "text"]                                                              *)
 (* The machine of GlomCli is stepped through its actions on the recorded configuration    *)
 (* (the library outcome is revealed from lib for the channel and route the machine chose)  *)
 (* and the recorded execution is judged three times: no Exec / side-effect event outside    *)
@@ -22,8 +24,9 @@ EXTENDS GlomCli, Json, IOUtils
 Rows == ndJsonDeserialize(IOEnv.TRACE_FILE)
 VARIABLE i
 
-RowCfg(row) == [s |-> row.cfg.s, t |-> row.cfg.t, l |-> row.cfg.l, r |-> [res |-> "na"], p |-> row.cfg.p]
-RowM0(k) == M0(RowCfg(Rows[k]), <<"s", "t", "l", "p">>)
+RowCfg(row) == [f |-> row.cfg.f, s |-> row.cfg.s, t |-> row.cfg.t, l |-> row.cfg.l,
+                r |-> [res |-> "na", dbg |-> row.cfg.r.dbg], p |-> row.cfg.p]
+RowM0(k) == M0(RowCfg(Rows[k]), <<"f", "s", "t", "l", "p">>)
 NoCand(sl, rt) == [sel |-> sl, route |-> rt, res |-> "na", mj |-> FALSE, mr |-> FALSE, me |-> FALSE]
 Cand(row, sl, rt) ==
   LET ix == {j \in 1..Len(row.lib) : row.lib[j].sel = sl /\ row.lib[j].route = rt} IN
@@ -33,7 +36,7 @@ Init == i = 1 /\ m = RowM0(1)
 
 \* the library's outcome for the channel and route the machine has chosen
 TraceRevealR == m.pc = "run" /\ ~Known("r")
-                /\ Reveal("r", [res |-> Cand(Rows[i], OutSel, m.route).res])
+                /\ Reveal("r", [res |-> Cand(Rows[i], OutSel, m.route).res, dbg |-> Rows[i].cfg.r.dbg])
 Stuck == /\ m.pc # "done" /\ ~(m.pc = "run" /\ ~Known("r")) /\ ~ENABLED CliNext
          /\ m' = [m EXCEPT !.pc = "done", !.exit = "stuck"]
 Next ==
@@ -58,10 +61,12 @@ ExecVerdict(row) ==
 \* 2. the laws, from the configuration alone
 LawVerdict(row) ==
   LET c == RowCfg(row)
-      open == LawSpec(c) = "unspecified" \/ LawChannel(c) = "unspecified"
+      open == LawSpec(c) = "unspecified" \/ LawChannel(c) = "unspecified" \/ c.f.argv # "ok"
       e == LawOutcomeR(c, IF open THEN "na" ELSE Cand(row, LawSel(c), LawSpec(c)).res) IN
   CASE e.k = "unspecified" -> ""
     [] e.k = "machinery"   -> "machinery:no-candidate"
+    [] e.k = "argv"    -> IF row.obs.exit # "usage" THEN "law:argv-usage-error"
+                          ELSE IF ~row.obs.outempty THEN "law:output-despite-bad-argv" ELSE ""
     [] e.k = "usage"   -> IF row.obs.exit # "usage" THEN "law:target-usage-error"
                           ELSE IF ~row.obs.outempty THEN "law:output-despite-bad-target" ELSE ""
     [] e.k = "glomerr" -> IF row.obs.exit # "1" THEN "law:glomerror-exit-status"
@@ -74,6 +79,8 @@ MechVerdict(row) ==
   ELSE IF m.exit # "unspec" /\ m.exit # row.obs.exit THEN "drift:exit"
   ELSE IF ~OutMatches(m.out, row) THEN "drift:output"
   ELSE IF m.evs # row.events THEN "drift:events"
+  ELSE IF m.rc # "-" /\ row.obs.rc # "-" /\ m.rc # row.obs.rc THEN "drift:status"
+  ELSE IF m.err # "-" /\ m.err # row.obs.err THEN "drift:stderr"
   ELSE ""
 Verdict(row) ==
   IF ExecVerdict(row) # "" THEN ExecVerdict(row)
